@@ -69,10 +69,14 @@ CLAIMS = {
         'per type (Display, Debug, as_str/as_bytes, into_*, to_owned, Clone, AsRef, FromStr, TryFrom, from_vec, serde str/bytes borrowed/owned, == str/String/[u8]) are exercised on '
         'valid and malformed strings: test-level for the plumbing (partial).',
    note='Trusted: as C01; serde/serde_json; the harness. Interpretation I7.'),
- 'C15': dict(cat='proof', tech='Coq refutation of the full statement by witnesses on the faithful model; round trip checked on the claimed class by model correspondence and the implementation\'s own ==',
-   text='Theorem C15_full_statement_refuted (the model, which agrees with the implementation on every generated pair, fails the round trip on a witness): the property as stated does NOT hold; '
-        'eight classes are recorded as known findings. On the complement (a dot-free with absolute path, authority on both or neither side, no inner empty segment, no query inheritance, a not '
-        'an ancestor of b\'s directory) the round trip held on every generated pair; no unbounded theorem yet: partial.',
+ 'C15': dict(cat='proof', tech='Coq proof of the round trip on the claimed class (index-level models of relative_to and resolve composed, literal equality) + refutation of the full statement by a witness; model correspondence and the implementation\'s own == on generated pairs',
+   text='Theorem C15_round_trip_partial: for ALL well-formed a, b with the same scheme and authority, absolute dot-free paths without an empty segment before the last one and a literal '
+        'common directory prefix (a not an ancestor of b\'s directory, no "./" shield shape, no query inheritance), the index-level model of relative_to returns without panic a well-formed relative '
+        'reference and the index-level model of resolve maps it back to a LITERALLY (composition of the strip_common / push_all / clear / set_query / set_fragment refinements with '
+        'C06_resolution_is_rfc_partial and the list fact norm(X ++ bs ++ ..^|bs| ++ ss) = X ++ ss); C15_strip_common_literal discharges its strip_common hypothesis; C15_other_scheme / '
+        'C15_other_authority: when schemes or authorities differ the result is a itself and resolves to itself; C15_round_trip_instance (hypotheses satisfiable). C15_full_statement_refuted: '
+        'the property as stated (all pairs) is FALSE of the faithful model; eight classes are recorded as known findings. Outside the theorem\'s hypotheses (percent-encoded variants of the '
+        'common prefix, shield shapes, authority on one side) the round trip is checked on generated pairs by model correspondence and the implementation\'s own ==: partial.',
    note=TB),
  'C16': dict(cat='proof', tech='Coq proof (soundness of the suffix loop in both directions; base is a prefix) + correspondence with a prefix oracle',
    text='Theorems C16_suffix_only_for_prefixes, C16_none_only_for_non_prefixes (the suffix loop reports a suffix only for percent-decoded segment prefixes and "none" only for non-prefixes), '
